@@ -236,6 +236,13 @@ def run(ctx):
                 ok = any(isinstance(st, ast.Assign) and is_name(st.targets[0], 'remote_timeout') and 'min(remote_timeout, timeout)' in norm(st.value) for st in walk_local(f.node))
                 ctx.check('R1', f'{f.short}: remote_timeout is capped by timeout', ok, f.short, 'remote-timeout-not-capped',
                           'the timeout sent to the server is not capped by the local timeout', where=loc(f, f.node))
+        # the time granted by the caller arrives on the server as `timeout`; `remote_timeout` is the parent's budget for the request itself and means nothing there
+        if region == 'server' and 'remote_timeout' in tparams:
+            uses = [x for st in stmts for x in ast.walk(st) if isinstance(x, ast.Name) and x.id == 'remote_timeout' and isinstance(x.ctx, ast.Load)]
+            ctx.check('R1', f'{F}: the server side waits for the time it was granted (`timeout`), not for the request budget (`remote_timeout`)', not uses, F, 'server-uses-remote-timeout',
+                      f'{F} uses `remote_timeout` on the server side, where it still has its default (the control thread passes the granted time as `timeout`): the graceful window is capped '
+                      'at one second whatever the caller allowed, a target that unwinds longer is force-killed and reported with error None instead of WorkerTerminatedError',
+                      where=loc(f, uses[0]) if uses else loc(f, f.node))
         # ------------------------------------------------------------ R2 truthful returns
         if f.name in ('wait', 'terminate'):
             dead_true = guard_dsts(g, DEAD_GUARDS, 'true')
